@@ -106,6 +106,81 @@ type c12World struct {
 	fetched []int   // fetch attempts seen by the blockstore (FG runs)
 	prov    []int
 	calls   []M
+	gate    *c12Gate // concurrent walks: fetches block here (released by the gate or by ctx)
+}
+
+// c12Gate makes the scripted fetcher behave like a real one: a fetch takes time and honours its context.
+// A failing fetch waits (at most `wait`) until another fetch is in flight before it returns its error; fetches of
+// obtainable nodes that are in flight at that moment (or start shortly after) are held for `grace` after the
+// failure was delivered, unless their context is cancelled first -- then they return ctx.Err() like any
+// well-behaved fetcher.  So runs with a failing node have siblings in flight while the failure is handled.
+type c12Gate struct {
+	mu       sync.Mutex
+	infl     int // fetches in flight
+	company  int // fetches that were in flight whenever a failing fetch delivered its error (summed)
+	failWait int // failing fetches waiting for company
+	lastFail time.Time
+	changed  chan struct{} // closed and replaced at every change
+	wait     time.Duration
+	grace    time.Duration
+}
+
+func c12NewGate(wait, grace time.Duration) *c12Gate {
+	return &c12Gate{changed: make(chan struct{}), wait: wait, grace: grace}
+}
+
+func (g *c12Gate) bcast() {
+	close(g.changed)
+	g.changed = make(chan struct{})
+}
+
+// sleep releases the lock until something changes, ctx is done or d has passed
+func (g *c12Gate) sleep(ctx context.Context, d time.Duration) {
+	ch := g.changed
+	g.mu.Unlock()
+	tm := time.NewTimer(d)
+	select {
+	case <-ch:
+	case <-ctx.Done():
+	case <-tm.C:
+	}
+	tm.Stop()
+	g.mu.Lock()
+}
+
+// pass blocks the calling fetch as described above; it returns ctx.Err() if the fetch's context is done.
+func (g *c12Gate) pass(ctx context.Context, failing bool) error {
+	g.mu.Lock()
+	defer g.mu.Unlock()
+	g.infl++
+	g.bcast()
+	if failing {
+		g.failWait++
+		deadline := time.Now().Add(g.wait)
+		for g.infl < 2 && ctx.Err() == nil {
+			rem := time.Until(deadline)
+			if rem <= 0 {
+				break
+			}
+			g.sleep(ctx, rem)
+		}
+		g.failWait--
+		g.company += g.infl - 1
+		g.lastFail = time.Now()
+	} else {
+		for ctx.Err() == nil {
+			if g.failWait > 0 {
+				g.sleep(ctx, g.wait)
+			} else if rem := g.grace - time.Since(g.lastFail); rem > 0 {
+				g.sleep(ctx, rem)
+			} else {
+				break
+			}
+		}
+	}
+	g.infl--
+	g.bcast()
+	return ctx.Err()
 }
 
 func c12NewWorld(cfg c12Cfg, salt int) *c12World {
@@ -186,6 +261,9 @@ func (w *c12World) errProj(err error, nilK string) c12Err {
 	if errors.As(err, &ue) {
 		return c12Err{"user", ue.n}
 	}
+	if errors.Is(err, context.Canceled) || errors.Is(err, context.DeadlineExceeded) {
+		return c12Err{"cancelled", -1}
+	}
 	if format.IsNotFound(err) {
 		var nf format.ErrNotFound
 		if errors.As(err, &nf) {
@@ -214,7 +292,16 @@ func (w *c12World) getLinks(ctx context.Context, c cid.Cid) ([]*format.Link, err
 		return nil, fmt.Errorf("c12: unknown cid %s", c)
 	}
 	err := w.fetchErr(i)
-	w.log("Fetch", M{"c": i, "st": w.cfg.Status[i-1]})
+	st := w.cfg.Status[i-1]
+	w.log("Fetch", M{"c": i, "st": st})
+	if w.gate != nil {
+		if cerr := w.gate.pass(ctx, err != nil); cerr != nil {
+			err, st = cerr, "cancelled" // the context this fetch was given is done
+		}
+	} else if cerr := ctx.Err(); cerr != nil {
+		err, st = cerr, "cancelled"
+	}
+	w.log("FetchRet", M{"c": i, "st": st}) // what getLinks really returns
 	if err != nil {
 		return nil, err
 	}
@@ -359,7 +446,15 @@ func (e *c12Exch) GetBlock(ctx context.Context, c cid.Cid) (blocks.Block, error)
 	if i < 0 {
 		return nil, fmt.Errorf("c12: exchange asked for unknown cid %s", c)
 	}
-	if err := e.w.fetchErr(i); err != nil {
+	err := e.w.fetchErr(i)
+	if g := e.w.gate; g != nil { // concurrent FetchGraph runs: the exchange takes time and honours its context
+		if cerr := g.pass(ctx, err != nil); cerr != nil {
+			return nil, cerr
+		}
+	} else if cerr := ctx.Err(); cerr != nil {
+		return nil, cerr
+	}
+	if err != nil {
 		return nil, err
 	}
 	return e.w.nodes[i], nil
@@ -398,6 +493,9 @@ func (w *c12World) runFG(conc int, events bool) c12FGRes {
 				panic(err)
 			}
 		}
+	}
+	if conc != 1 {
+		w.gate = c12NewGate(10*time.Millisecond, 8*time.Millisecond)
 	}
 	srv := bserv.New(&c12BS{Blockstore: base, w: w, events: events}, &c12Exch{w})
 	dsrv := NewDAGService(srv)
@@ -525,6 +623,12 @@ func c12ReplayOne(i int, b *c12Beh, trace func(string)) (int, string) {
 	w := c12NewWorld(b.Cfg, i)
 	var got []string
 	w.sink = func(m M) {
+		if m["ev"] == "FetchRet" { // the behaviours log a sequential fetch once, at the call
+			if m["st"] != w.cfg.Status[m["c"].(int)-1] {
+				got = append(got, fmt.Sprintf("FetchRet(%v)=%v", m["c"], m["st"]))
+			}
+			return
+		}
 		s := c12MStr(m, !useWalk, true)
 		got = append(got, s)
 		if trace != nil {
@@ -551,7 +655,7 @@ func c12ReplayOne(i int, b *c12Beh, trace func(string)) (int, string) {
 	w2 := c12NewWorld(b.Cfg, i)
 	var got2 []string
 	w2.sink = func(m M) {
-		if m["ev"] != "Visit" {
+		if m["ev"] != "Visit" && m["ev"] != "FetchRet" {
 			got2 = append(got2, c12MStr(m, false, false))
 		}
 	}
@@ -785,14 +889,56 @@ func c12RandCfg(r *rand.Rand, maxN int, kind string) c12Cfg {
 	return c
 }
 
+// c12RaceCfg: a concurrent walk (2..8 workers) over a DAG with a wide root where one or two nodes fail -- one of
+// them a child of the root, so its siblings are being fetched at the same time -- and every kind of handler chain.
+func c12RaceCfg(r *rand.Rand) c12Cfg {
+	var c c12Cfg
+	for {
+		c = c12RandCfg(r, 24, "par")
+		if c.N >= 5 {
+			break
+		}
+	}
+	c.Conc = 2 + r.Intn(7)
+	if r.Intn(4) > 0 {
+		c.Lim = -1
+	}
+	c.Skip = r.Intn(6) == 0
+	for len(c.Links[0]) < 3+r.Intn(3) {
+		c.Links[0] = append(c.Links[0], 2+r.Intn(c.N-1))
+	}
+	for i := range c.Status {
+		c.Status[i] = "ok"
+	}
+	kinds := []string{"missing", "bad"}
+	c.Status[c.Links[0][r.Intn(len(c.Links[0]))]-1] = kinds[r.Intn(2)]
+	if r.Intn(2) == 0 {
+		c.Status[1+r.Intn(c.N-1)] = kinds[r.Intn(2)]
+	}
+	chains := [][]string{{}, {"OnError"}, {"OnError"}, {"OnMissing"}, {"OnMissing", "OnError"}, {"OnError", "OnMissing"},
+		{"IgnoreMissing", "OnError"}, {"OnError", "IgnoreMissing"}, {"IgnoreErrors"}, {"OnError", "OnError"},
+		{"OnMissing", "OnError", "IgnoreMissing"}}
+	c.Hs = append([]string{}, chains[r.Intn(len(chains))]...)
+	c.Oer = []string{"same", "same", "wrap", "wrap", "nil"}[r.Intn(5)]
+	return c
+}
+
 func (c c12Cfg) fields(ev, grp string) M {
 	return M{"ev": ev, "w": 0, "grp": grp, "n": c.N, "links": c.Links, "status": c.Status, "loc": c.Loc, "lim": c.Lim,
 		"conc": c.Conc, "skip": c.Skip, "hs": c.Hs, "oer": c.Oer, "prov": c.Prov}
 }
 
 // c12WalkEvents runs one walk and streams its events (Reset .. Return) to out.
-func c12WalkEvents(cfg c12Cfg, grp string, salt int, out func(M)) {
+// Concurrent walks fetch through a gate (slow = generous delays: the runs aimed at failures with siblings in flight).
+func c12WalkEvents(cfg c12Cfg, grp string, salt int, slow bool, out func(M)) {
 	w := c12NewWorld(cfg, salt)
+	if cfg.Conc > 1 {
+		if slow {
+			w.gate = c12NewGate(60*time.Millisecond, 80*time.Millisecond)
+		} else {
+			w.gate = c12NewGate(10*time.Millisecond, 8*time.Millisecond)
+		}
+	}
 	out(cfg.fields("Reset", grp))
 	w.sink = out
 	res, hang := w.runWalk(false)
@@ -801,7 +947,13 @@ func c12WalkEvents(cfg c12Cfg, grp string, salt int, out func(M)) {
 	if hang {
 		out(M{"ev": "Hang", "w": 0})
 	} else {
-		out(M{"ev": "Return", "w": 0, "res": res})
+		sib := 0
+		if w.gate != nil {
+			w.gate.mu.Lock()
+			sib = w.gate.company
+			w.gate.mu.Unlock()
+		}
+		out(M{"ev": "Return", "w": 0, "res": res, "sib": sib})
 	}
 	w.mu.Unlock()
 }
@@ -852,7 +1004,7 @@ func c12ChildRun(payload string) {
 		c12Print("C12EV " + string(j))
 	}
 	if p.Kind == "walk" {
-		c12WalkEvents(p.Cfg, p.Grp, p.Salt, emit)
+		c12WalkEvents(p.Cfg, p.Grp, p.Salt, p.Dflt, emit) // dflt doubles as "slow gate" for walks
 	} else {
 		emit(c12FGEvent(p.Cfg, p.Grp, p.Salt, p.Dflt))
 	}
@@ -927,14 +1079,20 @@ func c12Record(t *testing.T) {
 	}
 	nSeq, nParClean, nPar = vEnvInt("C12_NSEQ", nSeq), vEnvInt("C12_NPARCLEAN", nParClean), vEnvInt("C12_NPAR", nPar)
 	nRisky, nFG = vEnvInt("C12_NRISKY", nRisky), vEnvInt("C12_NFG", nFG)
+	nRace := 14
+	if !vQuick() {
+		nRace = 80
+	}
+	nRace = vEnvInt("C12_NRACE", nRace)
 	salt := 0
+	slow := false
 	run := func(cfg c12Cfg) {
 		salt++
 		if c12CrashProne(cfg) {
-			c12Isolated(t, "walk", cfg, c12Grp(cfg), salt, false)
+			c12Isolated(t, "walk", cfg, c12Grp(cfg), salt, slow)
 			return
 		}
-		c12WalkEvents(cfg, c12Grp(cfg), salt, func(m M) { vEmit(m) })
+		c12WalkEvents(cfg, c12Grp(cfg), salt, slow, func(m M) { vEmit(m) })
 	}
 	// D6-immune variant of a configuration: no provider, no callbacks, at most one handler option
 	immune := func(cfg c12Cfg) c12Cfg {
@@ -975,6 +1133,12 @@ func c12Record(t *testing.T) {
 		run(cfg)
 		k++
 	}
+	// walks that meet a failing node while sibling fetches are in flight (2..8 workers, slow gate)
+	slow = true
+	for k := 0; k < nRace; k++ {
+		run(c12RaceCfg(r))
+	}
+	slow = false
 	for k := 0; k < nFG; k++ {
 		cfg := c12RandCfg(r, maxN, "par")
 		if k%3 == 0 {
